@@ -143,6 +143,12 @@ impl WakerHandle {
     pub fn queued(&self) -> usize {
         self.0.guard().len()
     }
+    /// run `f` while holding the queue's mutex, as `Accept::handle_waker` does around every pop: whoever calls
+    /// `WakerQueue::wake` meanwhile finds the queue busy
+    pub fn hold<R>(&self, f: impl FnOnce() -> R) -> R {
+        let _guard = self.0.guard();
+        f()
+    }
     /// take every queued interest out of the queue: `WorkerAvailable(idx)` as `Some(idx)`, any other kind as `None`
     pub fn drain(&self) -> Vec<Option<usize>> {
         self.0
@@ -251,6 +257,33 @@ impl AcceptDriver {
         let done = ITERATION_DONE.with(|d| *d.borrow());
         self.exited = !done;
         StepReport { events: EVENTS.with(|e| e.borrow().clone()), exited: self.exited }
+    }
+
+    /// One iteration of the real `Accept::poll_with` WITHOUT writing the mio waker first: it waits at most `wait`
+    /// for readiness events, so an interest that was queued without a wake-up stays unseen (as it would in the
+    /// blocking loop). `events` of the report is empty when the wait timed out.
+    pub fn step_quiet(&mut self, wait: Duration) -> StepReport {
+        if self.exited {
+            return StepReport { events: vec![], exited: true };
+        }
+        EVENTS.with(|e| e.borrow_mut().clear());
+        ITERATION_DONE.with(|d| *d.borrow_mut() = false);
+        SINGLE_STEP.with(|s| *s.borrow_mut() = true);
+        // `process_timeout` recomputes the poll time-out from the listeners' deadlines whenever one is set
+        self.accept.timeout = Some(self.accept.timeout.map_or(wait, |t| t.min(wait)));
+        self.accept.poll_with(&mut self.sockets);
+        SINGLE_STEP.with(|s| *s.borrow_mut() = false);
+        let done = ITERATION_DONE.with(|d| *d.borrow());
+        self.exited = !done;
+        StepReport { events: EVENTS.with(|e| e.borrow().clone()), exited: self.exited }
+    }
+
+    /// Take the readiness events that are pending right now out of the mio `Poll` without processing them (what
+    /// an iteration does whose `pop_front` finds the queue empty); returns their tokens (`usize::MAX` = waker).
+    pub fn drain_events(&mut self) -> Vec<usize> {
+        let mut events = mio::Events::with_capacity(64);
+        let _ = self.accept.poll.poll(&mut events, Some(Duration::ZERO));
+        events.iter().map(|e| usize::from(e.token())).collect()
     }
 
     /// snapshot of the accept state for worker indices `0..n`
